@@ -49,6 +49,11 @@ func (v *Vue) evalAttributes(ctx VueContext, n *html.Node) (map[string]any, erro
 			results[boundName] = boundValue
 		default:
 			var err error
+			if key == "data-v-html-content" || key == "data-v-text-content" {
+				// internal content attributes hold evaluated data, never template code
+				newAttrs = append(newAttrs, html.Attribute{Key: key, Val: val})
+				continue
+			}
 			if containsInterpolation(val) {
 				boundValue, err = v.interpolate(ctx, val)
 				if err != nil {
